@@ -112,11 +112,14 @@ pub mod sample {
         for i in 0..coeff_count {
             let sampled = cbd(rng);
             for j in 0..coeff_modulus_size {
+                // the sample lies in [-21, 21]; a coefficient modulus may be smaller than that
+                let modulus = coeff_modulus[j].value();
+                let magnitude = sampled.unsigned_abs() as u64 % modulus;
                 destination[i + j * coeff_count] = 
-                    if sampled >= 0 {
-                        sampled as u64
+                    if sampled >= 0 || magnitude == 0 {
+                        magnitude
                     } else {
-                        coeff_modulus[j].value() - sampled.unsigned_abs() as u64
+                        modulus - magnitude
                     };
             }
         }
